@@ -76,6 +76,15 @@ impl<'a, H: Header> BytesRef<'a, H> {
 
 }
 
+impl<'a, H: Header> BytesRef<'a, H> {
+    /// `bytes_ref.as_ref()` (explicit rewrite at the builder sites): the wrapped slice
+    pub fn vbytes(self) -> (r: &'a [u8])
+        ensures r == self.bytes,
+    {
+        self.bytes
+    }
+}
+
 impl<'a, H: Header> Deref for BytesRef<'a, H> {
     type Target = &'a [u8];
 //@extract multiboot2-common/src/bytes_ref.rs :: impl<'a, H: Header> Deref for BytesRef<'a, H> :: fn deref
@@ -96,7 +105,7 @@ pub mod ptr_meta {
     use super::*;
     /// local stand-in for ptr_meta::Pointee (only the associated type matters)
     pub trait Pointee {
-        type Metadata: Copy;
+        type Metadata;
     }
     /// shadows ptr_meta::from_raw_parts (call text stays verbatim, R3)
     #[verifier::external_body]
